@@ -315,7 +315,11 @@ def show_tokens(toks) -> str:
 
 def impl(case) -> str:
     if case["k"] == "raw":
-        return "- " + show_tokens(ref_tokens(bytes.fromhex(case["hex"])))
+        raw = bytes.fromhex(case["hex"])
+        data, idx = html_comment(raw, 0)
+        guard = not raw.startswith(b">") and not raw.startswith(b"->") and b"--!>" not in raw
+        return ("- " + show_tokens(ref_tokens(raw)) + " h" + data.hex() + ":" + str(len(raw) - idx) + ":"
+                + ("T" if guard else "F"))
     from twisted.web.error import FlattenerError
     try:
         b = flatten_real(case)
@@ -515,6 +519,19 @@ def _minidom_check(tree, flat: bytes):
 
 def oracle(case, obs):
     if case["k"] == "raw":
+        # the exact-guard theorem, on the real escaper and the Python port of the comment states:
+        # Comment(text) ends at the flattener's own "-->" iff the text is inside the guard
+        from twisted.web._flatten import escapedComment
+        raw = bytes.fromhex(case["hex"])
+        guard = not raw.startswith(b">") and not raw.startswith(b"->") and b"--!>" not in raw
+        doc = escapedComment(raw) + b"-->" + b"<sentinel>"
+        _, idx = html_comment(doc, 0)
+        ends_right = doc[idx:] == b"<sentinel>"
+        if guard and not ends_right:
+            return Failure(case, f"Comment({raw!r}) is inside the guard (no leading '>' / '->', no '--!>') but the "
+                           f"HTML5 comment states end it before the flattener's terminator", "html5-inside-guard-ends-early")
+        # outside the guard an early end is the known finding F10 (reported on tree cases); a repaired
+        # escaper that ends at the right place is accepted silently
         return None
     tree = unwrap(case)
     if obs.startswith("EXC:"):
@@ -638,6 +655,11 @@ def gen(rng, tier):
         cases.append(_node(rng, rng.randrange(1, 6)))
     for _ in range(300 if tier == "quick" else 3000):
         cases.append({"k": "raw", "hex": _bytes(rng, 8).hex()})
+    # comment-shaped raw texts: every string of length <= 5 (thorough 6) over {- > ! <} plus 'a' at length <= 4
+    import itertools as _it
+    for n in range(0, 6 if tier == "quick" else 7):
+        for tup in _it.product([b"-", b">", b"!", b"<"] + ([b"a"] if n <= 4 else []), repeat=n):
+            cases.append({"k": "raw", "hex": b"".join(tup).hex()})
     return cases
 
 
@@ -691,7 +713,7 @@ def shrink(case):
 
 def hist(case, obs):
     if case["k"] == "raw":
-        return "raw:" + ("error" if obs.endswith("!") else "ok")
+        return "raw:" + ("error" if "! h" in obs or obs.split(" h")[0].endswith("!") else "ok")
 
     def depth(n):
         if n["k"] == "wrap":
